@@ -50,6 +50,13 @@ def stats_shapes():
         ref='SELECT o_cust, c_name, SUM(o_amt) AS t FROM ord JOIN cust ON o_cust = c_id GROUP BY o_cust, c_name', order=[(2, True, False), (0, False, False)], limit=2)
     add('SELECT c_id, c_name, SUM(o_amt) AS t FROM cust JOIN ord ON c_id = o_cust JOIN r ON r.w = c_id GROUP BY c_id, c_name ORDER BY t DESC, c_id LIMIT 2', 'fd-group-3-tables+topk',
         ref='SELECT c_id, c_name, SUM(o_amt) AS t FROM cust JOIN ord ON c_id = o_cust JOIN r ON r.w = c_id GROUP BY c_id, c_name', order=[(2, True, False), (0, False, False)], limit=2)
+    # a LIMIT below a filter / join / aggregate is a barrier: no rule may move the outer predicate under it (v is unique per row, so the slice is determined)
+    for q in ('SELECT k, d, v FROM p ORDER BY v LIMIT 2', 'SELECT k, d, v FROM p ORDER BY v DESC LIMIT 2 OFFSET 1'):
+        add('SELECT k, v FROM (%s) x WHERE d = 2' % q, 'filter-above-limit')
+        add('SELECT k, v FROM (%s) x WHERE k > 1' % q, 'filter-above-limit-key')
+        add('SELECT x.k, q.w FROM (%s) x JOIN q ON x.k = q.k WHERE x.d = 1' % q, 'join-filter-above-limit')
+        add('SELECT COUNT(*) AS c, SUM(v) AS sv FROM (%s) x WHERE d = 1' % q, 'aggregate-above-limit')
+        add('SELECT k, d FROM (SELECT k, d FROM (%s) x WHERE d = 2) y WHERE k IS NOT NULL' % q, 'two-filters-above-limit')
     add('SELECT DISTINCT k FROM p WHERE 1 = 1 AND (k > 0 OR NULL IS NULL)', 'constant-folding')
     add('SELECT k FROM p WHERE k = 1 + 1 AND 2 > 1', 'constant-folding-2')
     return S
@@ -89,11 +96,37 @@ def run(rep):
                                    [[10 + i, (k % 3) + 1, F(['1.0', '2.5', '2.5', '4.0'][i % 4])] for i, k in enumerate(km) if k is not None]
                                    + [[20, 1, F('1.0')], [21, 2, F('2.5')], [22, 2, F('0.5')], [23, 3, F('4.0')]], **kw)]}
             units.append({'db': db, 'stmts': sh, 'known_unopt': {'id': 'unoptimized_in_subquery_same_name_capture', 'patterns': ['k IN (SELECT k FROM q']}})
+    # Part C: two-column integer keys whose four columns have DIFFERENT names and different ranges (statistics looked up per column, nothing widened across
+    # the tables): the packing radix must cover the larger side whichever side it is on
+    vdom = [0, 1, 2, 5]
+    pairs = list(itertools.product(vdom, vdom))
+    one = [[p] for p in pairs]
+    two = [list(c) for c in itertools.combinations_with_replacement(pairs, 2)]
+    sides = [(l, r) for l in one for r in one]
+    if quick:
+        sides += [(l, r) for l in two for r in one if max(max(x) for x in l) == 5 and max(r[0]) <= 2][:: 2]
+    else:
+        sides += [(l, r) for l in two for r in one] + [(l, r) for l in one for r in two]
+    sides = rotate(sides, rep.seed)
+    cstm = [{'sql': q, 'tag': t} for q, t in (
+        ('SELECT la, lb, lv, rv FROM l JOIN r ON la = ra AND lb = rb', 'packed-join-distinct-names'),
+        ('SELECT la, lb, lv, rv FROM r JOIN l ON rb = lb AND ra = la', 'packed-join-distinct-names-swapped'),
+        ('SELECT la, lb, lv, rv FROM l, r WHERE la = ra AND lb = rb AND lv < rv', 'packed-join-comma'),
+        ('SELECT la, rb, COUNT(*) AS c FROM l JOIN r ON la = ra AND lb = rb GROUP BY la, rb', 'packed-join+group'),
+        ('SELECT la, lb, COUNT(*) AS c, SUM(lv) AS sv FROM l GROUP BY la, lb', 'packed-group-distinct-names'),
+        ('SELECT la, rb, COUNT(*) AS c FROM l JOIN r ON la = ra GROUP BY la, rb', 'packed-group-over-join'))]
+    cmodes = [('PackedJoinKeys',), ('PackedGroupKeys',), ('JoinReorder',), ('EagerAggregation',), 'prod']
+    for i in range(0, len(sides), 8):
+        for l, r in sides[i:i + 8]:
+            db = {'tables': [table('l', [['la', 'int64'], ['lb', 'int64'], ['lv', 'int64']], [[a, b, 10 + j] for j, (a, b) in enumerate(l)], storage='parquet', rg=2),
+                             table('r', [['ra', 'int64'], ['rb', 'int64'], ['rv', 'int64']], [[a, b, 100 + j] for j, (a, b) in enumerate(r)], storage='parquet', rg=2)]}
+            units.append({'db': db, 'stmts': cstm, 'modes': cmodes})
+    rep.extra['part_c_databases'] = len(sides)
     modes = [(r,) for r in optdiff.RULES] + ['prod']
     rep.rule = ('Part A: %d corpus statements on the dirty database in memory and as Parquet; Part B: %d statistics-driven shapes (group keys over a join tree, eager aggregation, packed group/join '
-                'keys, OR-of-conjunctions, HAVING total, 3-4 table join chains, semi-join pushdown, LEFT JOIN predicate placement, constant folding, and a dimension/fact pair whose key is provably unique and dense: functional-dependency group keys with top-k above them) over every key multiset of 1..%d values from '
+                'keys, OR-of-conjunctions, HAVING total, 3-4 table join chains, semi-join pushdown, LEFT JOIN predicate placement, filters/joins/aggregates above a LIMIT derived table, constant folding, and a dimension/fact pair whose key is provably unique and dense: functional-dependency group keys with top-k above them) over every key multiset of 1..%d values from '
                 '{1,2,5,9,NULL} (ranges exceeding row counts without being unique), Parquet (statistics) and memory; each statement executed unoptimized, with each of the 14 rules alone and with the '
-                'production pipeline; oracle: every optimized execution returns the unoptimized rows (sequence where ORDER BY is given, LIMIT slices up to ties); incomparable when the unoptimized plan refuses'
+                'production pipeline; oracle: every optimized execution returns the unoptimized rows (sequence where ORDER BY is given, LIMIT slices up to ties); incomparable when the unoptimized plan refuses. Part C: l(la,lb,lv) x r(ra,rb,rv) on Parquet, every pair of key rows over {0,1,2,5}^2 on each side (plus two-row sides), 6 two-key join / group shapes under the packing, reordering and eager-aggregation rules and production'
                 % (len(st), len(sh), 3 if quick else 4))
     optdiff.run(rep, units, modes, 'rows')
 
